@@ -49,7 +49,7 @@ CHECKS["C19"] = (
 CHECKS["C01"] = (
     "model_checking",
     "explicit-state breadth-first search over data-unit histories with the real parse_stream as transition function, deduplicated on a projection of the real State paired with the reference state; oracle = independent stream-structure acceptor (models/streamref.py) using true regular-expression semantics",
-    "For each of 9 (quick) / 60 (thorough) contexts (profile x major_version x level x coding mode) every history of up to 5 / 6 data units over ~55 / ~95 events (identical/differing headers, pictures, first/continuation fragments with good/bad slice counts, offsets and numbers, padding, auxiliary, end of sequence, foreign-profile units; picture-number rules incl. wrap-around; correct/zero/wrong/inside-header parse offsets) is built by the independent builder, run through the real validator and compared with the reference acceptor; all histories to depth 2 / 3 are additionally enumerated without state merging. Any non-ConformanceError exception is a violation.",
+    "For each of 10 (quick) / 60 (thorough) contexts (profile x major_version x level x coding mode) every history of up to 5 / 6 data units over ~55 / ~95 events (identical/differing headers, pictures, first/continuation fragments with good/bad slice counts, offsets and numbers, padding, auxiliary, end of sequence, foreign-profile units; picture-number rules incl. wrap-around; correct/zero/wrong/inside-header parse offsets) is built by the independent builder, run through the real validator and compared with the reference acceptor; all histories to depth 2 / 3 are additionally enumerated without state merging. Any non-ConformanceError exception is a violation.",
     "Tiny 4:4:4 format with 2 slices per picture; level value tables permissive (ordering patterns real). Known finding F5 attributed only when the reference with the defective automaton predicts the verdict.",
     "DESIGN.md 6/C01",
 )
